@@ -1288,6 +1288,32 @@ class ApiGen:
             if k in self.slots:
                 self.free(k)
         self.features(prev)
+        # relations between ADJACENT tokens must not matter: a token that repeats its left / right neighbour and continues
+        # with letters no word has is not a word (explicit and automatic decoding, with and without lang_out)
+        k = self.create(feat=0)
+        if k is not None:
+            self.busy = {k}
+            pref = [i for i in range(self.nl) if self.L.langs[i]['prefix']]
+            for li in (r.sample(pref, min(3, len(pref))) if pref else []):
+                coin = r.randrange(2048)
+                toks = self.tokens(li, self.seed_poly(k, coin))
+                for i, j in ((1, 0), (15, 14), (7, 8)):
+                    t2 = list(toks)
+                    t2[i] = t2[j] + r.choice([b'zz', b'xq'])
+                    if self.accepted_for(li, t2[i]):
+                        continue
+                    s_ = self.render(li, t2)
+                    for lang in (li, None):
+                        o, k2 = self.decode(coin, s_, lang)
+                        if o is None:
+                            break
+                        if o.kv('st') != '2':
+                            self.report('C08', 'bad-token-neighbour', 'lang %d: a token that repeats its neighbour and continues with letters no word has returned status %s (%s decoding), expected the language error: %r' % (
+                                li, o.kv('st'), 'explicit' if lang is not None else 'automatic', s_.decode('utf-8', 'replace')))
+                        if k2 is not None:
+                            self.free(k2)
+            if k in self.slots:
+                self.free(k)
 
     # ------------------------------------------------------------ driver
     def run(self, nops, weights):
